@@ -213,10 +213,11 @@ def constant_family(ctx, rng, quick):
         src = "out str[%d] s%s;\nout str[%d] t;\nparser {\n" % (cap, (' = "%s"' % d) if has_d else "", cap)
         for v in starts:
             src += ' s = "%s";\n' % v
-        src += ' t = "%s";\n "x";\n s = "%s";\n "y";\n}\n' % (y, w)
+        # (a delete before the assignment: with delete-frees the block is gone and must be allocated again, default or not)
+        src += ' t = "%s";\n "x";\n%s s = "%s";\n "y";\n}\n' % (y, " delete s;\n" if rng.random() < 0.5 else "", w)
         used = ([d] if has_d else []) + starts + [y, w]
         fits = all(len(_denoted(v)) <= cap - 1 for v in used)
-        for row in (rng.sample(STORAGE, 3) if quick else STORAGE):
+        for row in ([STORAGE[3]] + rng.sample(STORAGE[:3] + STORAGE[4:], 2) if quick else STORAGE):
             entries.append((src, [rng.choice(["-O0", "-O1", "-O3"])] + row + rng.choice([[], ["-fstrings-as-u8"]]), fits,
                             {"s0": _denoted(starts[-1] if starts else (d if has_d else "")), "s1": _denoted(w), "t": _denoted(y)}))
     for chunk in work.chunked(entries, 30):
